@@ -161,7 +161,7 @@ static void determinism(int thorough) {
 }
 
 int main(int argc, char **argv) {
-	h_init(); h_set_init(&obs, 1 << 12); enc_opts();
+	h_init(); h_watchdog(5, 12);	/* 60 s of CPU inside one element = the call under test does not return */ h_set_init(&obs, 1 << 12); enc_opts();
 	if (argc < 5) { fprintf(stderr, "usage\n"); return 2; }
 	int thorough = !strcmp(argv[2], "thorough"); int shard = atoi(argv[3]), nsh = atoi(argv[4]); long idx = 0;
 	if (!strcmp(argv[1], "dec")) {
